@@ -219,6 +219,19 @@ pub mod locks {
     }
 }
 
+/// Makes every further `io_uring_enter` on this ring fail (the ring's fd number now names
+/// /dev/null) while the ring itself - and whatever the kernel already picked up from its
+/// submission queue - stays alive through its mappings: a failed enter with writes in flight.
+pub fn break_ring_fd(fd: i32) {
+    unsafe {
+        let null = libc::open(c"/dev/null".as_ptr(), libc::O_RDWR);
+        if null >= 0 {
+            libc::dup2(null, fd);
+            libc::close(null);
+        }
+    }
+}
+
 // ---------------------------------------------------------------- clock
 
 static NOW_ON: AtomicBool = AtomicBool::new(false);
